@@ -278,6 +278,19 @@ RecordAt(b, p) ==
                  IF ~n.ok \/ ~vs.ok THEN NoRec(p)
                  ELSE [ok |-> TRUE, k |-> 28, f |-> [n.f EXCEPT !.vals = vs.v, !.nvals = cnt], next |-> vs.next]
       [] id = 29 -> Rec(S0, 29)
+      \* extension records: XNAME (implicit / explicit number), XELEMENT, XGEOMETRY
+      [] id \in {30, 32} -> LET a == OU(b, S0, TRUE, "ct") IN Rec(OStr(b, a, TRUE, "str"), id)
+      [] id = 31 -> LET a == OU(b, S0, TRUE, "ct")
+                        c == OStr(b, a, TRUE, "str") IN Rec(OU(b, c, TRUE, "num"), 31)
+      [] id = 33 ->
+            IF ~ib.ok \/ info >= 32 THEN NoRec(p)
+            ELSE LET a == OU(b, S1, TRUE, "ct")
+                     l == OW(b, a, Has(info, 1), "layer")
+                     t == OW(b, l, Has(info, 2), "dtype")
+                     c == OStr(b, t, TRUE, "str")
+                     x == OS(b, c, Has(info, 16), "x")
+                     y == OS(b, x, Has(info, 8), "y") IN
+                 Rec(ORep(b, y, Has(info, 4)), 33)
       [] id = 34 ->
             LET ct == OU(b, S0, TRUE, "ct")
                 un == OU(b, ct, TRUE, "w")
@@ -399,6 +412,7 @@ State0 == [m |-> Modal0, cells |-> <<>>, libprops |-> <<>>, bad |-> {},
            tgt |-> <<"lib">>,                 \* what a PROPERTY record attaches to
            cellnames |-> <<>>, textstrings |-> <<>>, propnames |-> <<>>, propstrings |-> <<>>,
            \* each table: sequence of [num, str, props, off, implicit]
+           xrecords |-> FALSE,                \* an XNAME / XELEMENT / XGEOMETRY record was seen
            nrec |-> 0]
 
 \* new value of a modal: explicit (then it becomes defined) or the current one (must be defined)
@@ -443,6 +457,7 @@ AttachProp(st, p) ==
             [st EXCEPT !.cells[t[2]][t[1]][t[3]].props = Append(@, p)]
       [] t[1] \in {"cellnames", "textstrings", "propnames", "propstrings"} ->
             [st EXCEPT ![t[1]][t[2]].props = Append(@, p)]
+      [] t[1] = "ignored" -> st                      \* properties of records this model does not hold
       [] OTHER -> [st EXCEPT !.bad = @ \cup {"property_without_owner"}]
 
 Step(st0, r) ==
@@ -564,6 +579,15 @@ Step(st0, r) ==
       [] r.k = 29 ->
             LET s1 == Use(Use(st, "pname", FALSE, <<>>), "pvals", FALSE, <<>>) IN
             AttachProp(s1, [name |-> s1.m.pname, std |-> FALSE, vals |-> s1.m.pvals])
+      \* extension records carry nothing this data model holds; XGEOMETRY is a geometry record as far
+      \* as the modal variables are concerned
+      [] r.k \in {30, 31, 32} -> [st EXCEPT !.tgt = <<"ignored">>, !.xrecords = TRUE]
+      [] r.k = 33 ->
+            LET s1 == LT(st, f, info)
+                s2 == SetPos(s1, "gx", "gy", f, Has(info, 16), Has(info, 8))
+                s3 == UseRep(s2, Has(info, 4), f) IN
+            [s3 EXCEPT !.tgt = <<"ignored">>, !.xrecords = TRUE,
+                       !.bad = @ \cup (IF InCell(st) THEN {} ELSE {"element_outside_cell"})]
       [] OTHER -> [st EXCEPT !.bad = @ \cup {"unexpected_record"}]
 
 RECURSIVE Run(_, _, _)
@@ -607,7 +631,7 @@ Finish(st) ==
                                                             = NameOf(st.cellnames, st.cells[j].name)
         bad == st.bad \cup (IF refsOK /\ tabsOK THEN {} ELSE {"dangling_reference_number"})
                       \cup (IF dupcells THEN {"duplicate_cell_name"} ELSE {}) IN
-    [bad |-> bad,
+    [bad |-> bad, xrecords |-> st.xrecords,
      libprops |-> RP(st.libprops),
      cells |-> [i \in DOMAIN st.cells |->
                   LET c == st.cells[i] IN
